@@ -140,6 +140,19 @@ CHECKS = {
              "are listed in known_findings.jsonl.",
         ref="DESIGN.md 4 C10",
     ),
+    "C07": dict(
+        text="Redirect decoding and pipe wiring on the real specs.py code over the COMPLETE operator spelling table read from the tokenizer "
+             "at run time (50 spellings): a z3 regex-inclusion query shows every string the tokenizer's redirect pattern can emit is "
+             "decodable (translator validated against re.fullmatch on the tables), ordered-choice matching consumes every spelling whole, "
+             "and bounded model checking of SubprocSpec.build / cmds_to_specs over every single redirect, every pair of redirects on one "
+             "stage and every redirect on every stage of 2-3 stage pipelines (with and without trailing &) compares the resulting "
+             "stdin/stdout/stderr slots, file modes, shared opens, pipe ends, sentinels and errors with a decoder written from the "
+             "documentation: all spellings of an operator are equivalent, conflicts and pipe-redirects without a pipe are errors.",
+        note="safe_open and PipeChannel are models (no fds are created); the last stage's capture plumbing (_update_last_spec) and the "
+             "alias-side handle resolution are not covered; bytes actually delivered and the grammar producing the tuples are outside.",
+        ref="DESIGN.md 4 C07",
+        technique="z3 regex language inclusion + bounded symbolic execution (CrossHair/z3) of the real decoding and wiring code",
+    ),
 }
 
 NA = {
